@@ -175,7 +175,14 @@ class Zone(dns.zone.Zone):  # lgtm[py/missing-equals]
             #
             event.wait()
         # Do the deferred version setup.
-        self._write_txn._setup_version()
+        try:
+            self._write_txn._setup_version()
+        except BaseException:
+            # We could not make the version (e.g. we ran out of memory while
+            # copying), so give up the write transaction slot and wake up the
+            # next waiting writer instead of blocking all writers forever.
+            self._end_write(self._write_txn)
+            raise
         return self._write_txn
 
     def _maybe_wakeup_one_waiter_unlocked(self):
